@@ -282,7 +282,9 @@ def _parse_directive_options(
             value = None
         try:
             converted_value = converter(value)
-        except (ValueError, TypeError) as error:
+        except Exception as error:
+            # converters should raise ValueError/TypeError, but some
+            # (e.g. docutils' ``figwidth_value``) fail differently on an empty value
             validation_errors.append(
                 ParseWarnings(
                     f"Invalid option value for {name!r}: {value}: {error}",
